@@ -247,6 +247,15 @@ pub fn cast_object(from: (Expr, AnnRef)) -> Object {
     }
 }
 
+/// Returns true if the expression can be cast to an object.
+fn is_object(expr: &Expr) -> bool {
+    match expr {
+        Expr::Object(_) => true,
+        Expr::Reference(_, v) => is_object(&v.0),
+        _ => false,
+    }
+}
+
 pub fn cast_transfer(from: (Expr, AnnRef)) -> Transfer {
     match from.0 {
         Expr::Transfer(x) => *x,
@@ -541,7 +550,16 @@ pub fn eval_content<'a>(
         let rhs = eval_any(ctx, meta.rhs(), AnnRef::default())?;
         match meta.kind() {
             syn::ContentTagKind::Media => media = Some(cast_string(rhs)),
-            syn::ContentTagKind::Headers => headers = Some(cast_object(rhs)),
+            syn::ContentTagKind::Headers => {
+                // Joins and alternatives share the object type tag but are not literal objects.
+                if !is_object(&rhs.0) {
+                    return Err(
+                        Error::new(Kind::InvalidType, "ill-formed headers, not an object")
+                            .at(meta.rhs().span()),
+                    );
+                }
+                headers = Some(cast_object(rhs))
+            }
             syn::ContentTagKind::Status => {
                 let s = cast_http_status(rhs).map_err(|_| {
                     Error::new(Kind::InvalidLiteral, "not a valid HTTP status")
